@@ -489,7 +489,7 @@ ST = R + 'state:'
 _rename = _pair('c14', 'rename', (120, 300), 'new origin<2**30, rename or not, name lengths 1..255, as OBNAME and OBJREF; memo guards on',
                 ['EFLRItem.obname', 'EFLRItem.__setattr__', 'write_struct', 'write_struct_obname', 'write_struct_objref'],
                 replay=ST + 'replay_rename', validate=ST + 'replay_rename')
-_cachekey = _pair('c14', 'cache_key', (300, 600), 'every memoised function found by introspection x 7 codes x 13x13 values (1, 1.0, True, ...): keys equal => uncached results equal',
+_cachekey = _pair('c14', 'cache_key', (300, 600), 'every memoised function found by introspection x 7 codes x 13x13 scalar values (1, 1.0, True, ...) and, for single-argument memos, 13x13 tuples ((10, 20) / (10.0, 20.0), (1,) / (True,), (0.0,) / (-0.0,) ...): keys equal => uncached results equal',
                   ['write_struct', 'ushort'], replay=ST + 'replay_cache_key', validate=ST + 'replay_cache_key', shards=(4, 4))
 _enthist = _pair('c14', 'entry_history', (120, 300), 'write_struct with the real lru caches: 11 codes (incl. DTIME) x every ordered pair of equal (==) values out of 26 (0.0/-0.0, 1/1.0/True, naive date-times differing in fold under a TZ rule with a clock set-back, ...): b after a == b as in a fresh process (finite, exhaustive)',
                  ['write_struct'], replay=PLAIN)
